@@ -80,8 +80,8 @@ def run(vc, tier):
         args += ['--extra', leg]
     r0 = c.run_vx_unit('c03-special', src, 'asan', args + ['--sel', 1], share=0.45)       # raw-literal tails, checksum x length frames, compressor streams, legacy frames (golden + hand-built)
     r = c.run_vx_unit('c03-substitutions', src, 'asan', args + ['--sel', 2], share=0.7)
-    r2 = c.run_vx_unit('c03-tails', src, 'asan', ['--mode', 1, '--cat', cat, '--D', 0, '--lostep', 8 if tier == 'quick' else 1], share=0.9)
-    r3 = c.run_vx_unit('c03-rawlit', src, 'asan', ['--mode', 2, '--cat', cat, '--D', 0], share=0.9)
+    r2 = c.run_vx_unit('c03-tails', src, 'asan', ['--mode', 1, '--cat', cat, '--D', 0, '--lostep', 8 if tier == 'quick' else 1, '--exec-timeout', 20000 if tier == 'quick' else 180000], share=0.9)
+    r3 = c.run_vx_unit('c03-rawlit', src, 'asan', ['--mode', 2, '--cat', cat, '--D', 0, '--exec-timeout', 20000 if tier == 'quick' else 180000], share=0.9)
     c.extra['decodes'] = r0.stats.get('decodes', 0) + r.stats.get('decodes', 0) + r2.stats.get('decodes', 0) + r3.stats.get('decodes', 0)
     c.extra['mutants_accepted'] = r.stats.get('mutants_accepted', 0) + r2.stats.get('mutants_accepted', 0)
     c.extra['legacy_seeds'] = bool(leg)
